@@ -2,27 +2,34 @@
    tiling.  Property theorems only. *)
 From Coq Require Import List ZArith NArith Bool.
 From Pcfg Require Import Str Multiword Detect Segment SegCorr DetectProofsStr DetectProofsDrive DetectProofsSimple
-     DetectProofsMw DetectProofsSeg DetectProofsInst.
+     DetectProofsMw DetectProofsSeg DetectProofsWeb DetectProofsInst.
 From PcfgGen Require Import Consts_gen Unicode_gen.
 Import ListNotations.
 Open Scope Z_scope.
 
 (* ---- side conditions on the data regenerated on every run *)
 
+(* the source searches a length-preserving lower-casing of the section in the
+   alpha / e-mail / website detectors (the repair of R12) *)
+Theorem C05_source_lower_aligned : seg_lower_aligned = true.
+Proof. exact side_lower_aligned. Qed.
 (* sweep of all code points of the running interpreter: lower() changes the
    length of exactly U+0130, and never the class of a character *)
 Theorem C05_unicode_lower_expanding : lower_expanding = [304%N].
 Proof. exact lower_expanding_is_0130. Qed.
 Theorem C05_unicode_lower_keeps_class : lower_class_mismatch = [].
 Proof. exact lower_class_mismatch_none. Qed.
-(* every character except U+0130 (pool table, default class outside it) has a
-   one-character lower() of the same class *)
-Theorem C05_unicode_good : forall c, c <> 304%N -> goodc c_isalpha c_isdigit c_lower c.
-Proof. exact goodc_except_0130. Qed.
+(* every character (pool table, default class outside it): lower() is not
+   empty, and the character the detectors look at has the class of the
+   original one *)
+Theorem C05_unicode_good : forall c, goodc c_isalpha c_isdigit c_lower c.
+Proof. exact goodc_all. Qed.
 Theorem C05_side_multiword_min_len : 1 <= c_min_len.
 Proof. exact side_min_len. Qed.
 Theorem C05_side_year_prefixes : Forall (fun q => len q = 2) year_prefixes.
 Proof. exact side_year_prefixes. Qed.
+Theorem C05_side_tlds_nonempty : Forall (fun t => 1 <= len t) tld_list.
+Proof. exact side_tlds_nonempty. Qed.
 
 (* ---- the generic split driver *)
 
@@ -37,17 +44,73 @@ Theorem split_driver_tiling :
     (forall x, tiles pm x todo -> tiles pm x out) /\ Forall Q out /\ unlab_all Inv out.
 Proof. exact DetectProofsDrive.split_driver_tiling. Qed.
 
-(* ---- the pipeline.  PARTIAL: the keyboard-walk, e-mail and website
-   detectors enter through the explicit hypotheses c_kw_split_ok,
-   c_email_split_ok, c_website_split_ok (statements about the very functions
-   the model runs).  Full statement = the same without these three
-   hypotheses. *)
+(* ---- per detector: the index arithmetic gives a split *)
+
+Theorem email_split_ok :
+  det_split_ok c_isalpha c_isdigit c_lower c_kbs c_min_run year_prefixes context_strings (detect_email c_lower true tld_list).
+Proof. exact (email_split_ok_proved c_isalpha c_isdigit c_lower c_kbs c_min_run tld_list year_prefixes context_strings). Qed.
+
+Theorem website_split_ok :
+  det_split_ok c_isalpha c_isdigit c_lower c_kbs c_min_run year_prefixes context_strings
+               (detect_website c_isalpha c_lower true tld_list).
+Proof.
+  exact (website_split_ok_proved c_isalpha c_isdigit c_lower c_kbs c_min_run tld_list year_prefixes context_strings
+           side_tlds_nonempty).
+Qed.
+
+(* for EVERY state m of the multi-word detector: parse returns the word
+   itself or a split into >= 2 parts, each seen >= threshold times and of
+   length >= min_len, of a word seen < threshold times *)
+Theorem C05_sound_multiword : forall m s b ws,
+  mwparse_c m s = Some (b, ws) ->
+  ws = [s] \/ (multi_ok c_lower c_threshold c_min_len m s ws /\ mwcount_c m s < c_threshold).
+Proof. exact (mw_parse_spec c_lower c_threshold c_min_len c_max_len side_min_len). Qed.
+
+(* ---- the pipeline.  PARTIAL: the keyboard-walk detector enters through the
+   explicit hypothesis c_kw_split_ok (a statement about the very function the
+   model runs).  Full statement = the same without this hypothesis. *)
 Theorem C05_tiling_partial :
-  c_kw_split_ok -> c_email_split_ok -> c_website_split_ok ->
-  forall m pw, pw <> [] -> ~ In 304%N pw ->
+  c_kw_split_ok ->
+  forall m pw, pw <> [] ->
   exists r, parse_c m pw = POk r /\ tiles c_pm pw (p_sections r) /\ Forall c_sound (p_sections r) /\
             Forall (fun y => snd y <> None) (p_sections r).
 Proof. exact parse_c_ok. Qed.
 
+(* ---- why the repair was needed: the detectors as they were (searching
+   section[0].lower(), slicing section[0]) on passwords with U+0130 *)
+Theorem C05_refuted_lower_0130_website :
+  parse_gen false [] w_web = POk {| p_sections := w_web_secs; p_walks := []; p_emails := []; p_providers := [];
+                            p_urls := [[105; 775; 46; 114; 117]%N]; p_hosts := [[105; 775; 46; 114; 117]%N]; p_prefixes := [None];
+                            p_years := []; p_context := []; p_alpha := [[105]%N]; p_masks := [[85]%N];
+                            p_digits := []; p_other := []; p_prince := [LW; LA 1]; p_supported := false;
+                            p_base := [LW; LA 1] |} /\
+  ~ tiles c_pm w_web w_web_secs /\ In 50%N w_web /\ ~ In 50%N (concat (map fst w_web_secs)).
+Proof. exact refuted_website_0130. Qed.
+Theorem C05_refuted_lower_0130_empty_segment :
+  exists r, parse_gen false [] w_empty = POk r /\
+            p_sections r = [([105; 775; 46; 99; 111; 109]%N, Some LW); ([], Some (LO 0))].
+Proof. exact refuted_empty_segment_0130. Qed.
+Theorem C05_refuted_lower_0130_email :
+  exists r, parse_gen false [] w_email = POk r /\
+            p_sections r = [(w_email, Some LE); ([], Some (LO 0))] /\
+            p_emails r = [[105; 775; 64; 97; 46; 99; 111; 109]%N].
+Proof. exact refuted_email_0130. Qed.
+Theorem C05_refuted_lower_0130_alpha :
+  exists r, parse_gen false [] w_alpha = POk r /\
+            p_sections r = [([97; 304]%N, Some (LA 2)); ([98]%N, Some (LA 1))] /\
+            p_alpha r = [[97; 105]%N; [98]%N] /\
+            mwcount_c [] [97; 105]%N = 0 /\ mwcount_c [] [98]%N = 0.
+Proof. exact refuted_alpha_0130. Qed.
+
+(* the hypotheses are satisfiable on a non-trivial instance: '1qaz2019#1pass!' *)
+Example C05_demo :
+  exists r, parse_c [] w_demo = POk r /\
+            p_sections r = [([49; 113; 97; 122]%N, Some (LK 4)); ([50; 48; 49; 57]%N, Some LY); ([35; 49]%N, Some LX);
+                            ([112; 97; 115; 115]%N, Some (LA 4)); ([33]%N, Some (LO 1))] /\
+            w_demo <> [].
+Proof. exact demo_parse. Qed.
+
 Print Assumptions split_driver_tiling.
 Print Assumptions C05_tiling_partial.
+Print Assumptions C05_sound_multiword.
+Print Assumptions C05_refuted_lower_0130_website.
